@@ -66,7 +66,7 @@ EXCLUDE = {
  'C07-r2-2': 'swaps the relative precedence of && and ||, which the property does not fix (it speaks of parenthesised expressions; each operator still follows truthiness): not a violation of C07 as stated, and the check rightly stays silent',
 }
 # earlier manual confirmations
-MANUAL_OK = {'C21-2', 'C19-2', 'C01-r2-1', 'C01-r2-2', 'C28-r2-2', 'C32-r2-2', 'C13-r2-1', 'C13-r2-2', 'C24-r2-1'}
+MANUAL_OK = {'C21-2', 'C19-2', 'C01-r2-1', 'C01-r2-2', 'C28-r2-2', 'C32-r2-2', 'C13-r2-1', 'C13-r2-2', 'C24-r2-1', 'C21-r2-1', 'C23-r2-2'}
 for k in ['C01-1','C01-2','C03-1','C03-2','C05-1','C05-2','C26-1','C26-2','C28-1','C28-2']:
     seeds.setdefault(k, {'verify': {"applies":True,"builds":True,"existing_tests_pass":True,"demo_fails_with_change":True,"demo_passes_without_change":True}, 'checks': []})
 rows = []
